@@ -3,13 +3,21 @@
 #if YACLIB_FAULT_ATOMIC == 2
 #  include <yaclib/fault/detail/atomic.hpp>
 #  include <yaclib/fault/detail/fiber/atomic.hpp>
+#  ifdef YACLIB_VERIF
+#    include <yaclib/fault/detail/verif_atomic.hpp>
+#  endif
 
 #  include <atomic>
 
 namespace yaclib_std {
 
+#  ifdef YACLIB_VERIF
+template <typename T>
+using atomic = yaclib::detail::Atomic<yaclib::verif::Atomic<T>, T>;
+#  else
 template <typename T>
 using atomic = yaclib::detail::Atomic<yaclib::detail::fiber::Atomic<T>, T>;
+#  endif
 
 }  // namespace yaclib_std
 #elif YACLIB_FAULT_ATOMIC == 1
